@@ -2166,10 +2166,15 @@ class Node(SimComponent, ABC):
         Powers off the node and sets is_resetting to True.
         Applying more timesteps will eventually turn the node back on.
         """
-        if self.operating_state.ON:
+        if self.operating_state == NodeOperatingState.ON:
             self.config.is_resetting = True
             self.sys_log.info("Resetting")
             self.power_off()
+            if self.operating_state == NodeOperatingState.OFF:
+                # zero shut-down duration: the shutdown is already over, so the automatic start follows at once (the timed
+                # path does this when the shut-down countdown runs out)
+                self.config.is_resetting = False
+                self.power_on()
             return True
         return False
 
